@@ -65,6 +65,20 @@ class VarInfFixed(SIR_VariableInfection):
         self.postEvent(t + self._tInfected, n, self.remove, name=self.REMOVED)
 
 
+class Isolate(Process):
+    '''a user process with a per-element event on a locus it does not own: infected nodes of the sibling 'disease' component are isolated
+    (moved to removed) at their own rate'''
+    P = 'vp.pIsolate'
+
+    def build(self, params):
+        super().build(params)
+        self._vp_target = self.container()['disease']
+        self.addEventPerElement(self._vp_target.locus(SIR.INFECTED), params[self.P], self.isolate, name='vp.isolate')
+
+    def isolate(self, t, n):
+        self._vp_target.changeCompartment(n, SIR.REMOVED)
+
+
 class DynamicSIR(SIR, AddDelete):
     '''the multiple-inheritance combination (test/test_adddeletesir.py)'''
     def addNewNode(self, **kwds):
@@ -114,6 +128,7 @@ ADCLASSES = dict(AddDelete=AddDelete, DynamicSIR=DynamicSIR, CompartmentedAddDel
 
 def mkproc(p):
     if p['cls'] in ADCLASSES: return ADCLASSES[p['cls']]()
+    if p['cls'] == 'Isolate': return Isolate()
     if p['cls'] == 'Monitor': return Monitor()
     if p['cls'] == 'NetworkStatistics': return NetworkStatistics()
     if p['cls'] == 'Script':
@@ -249,6 +264,15 @@ def gen_shipped(rnd, classes=None, dyn=None, oracles=('clock', 'member', 'loci')
 def gen_varfix(rnd, dyn=None):
     return gen_shipped(rnd, classes=['VarInfFixed'], dyn=dyn, oracles=('clock', 'member', 'loci', 'diagram', 'forest'),
                        net=rand_net(rnd, 3, 7, kind=rnd.choice(['er', 'complete', 'star'])), maxT=rnd.choice([2.0, 4.0]))
+
+
+def gen_isolate(rnd, dyn=None):
+    nodes, edges = rand_net(rnd, 3, 7, kind=rnd.choice(['er', 'complete', 'star', 'path']))
+    sir = {SIR.P_INFECTED: rnd.choice([0.25, 0.5]), SIR.P_INFECT: rnd.choice(D[1:-1]), SIR.P_REMOVE: rnd.choice([0.0, 0.125, 0.25])}
+    procs = [dict(cls='SIR', name=None, key='disease', params=sir), dict(cls='Isolate', name=None, key='iso', params={Isolate.P: rnd.choice([0.25, 0.5, 1.0])})]
+    ps = sorted({v for v in list(sir.values()) + [procs[1]['params'][Isolate.P]] if 0 < v < 1})
+    return dict(procs=procs, seq='dict', dyn=dyn or rnd.choice(['sto', 'syn']), nodes=nodes, edges=edges, maxT=rnd.choice([3.0, 6.0]), seed=rnd.random(),
+                specials=ps, pspecial=0.15, oracles=['clock', 'member', 'loci', 'diagram'])
 
 
 def gen_compfix(rnd, dyn=None):
